@@ -52,12 +52,13 @@ AllKindsX == AllKinds \cup {"topchoice", "all"}
 \* without a prefix - before the chain's first derived type extends the imported one; the near twin is declared last
 Orders == {"base_first", "derived_first"}
 Space ==
-  {x \in {[depth |-> d, own |-> o, order |-> ord, loc |-> lc, homonym |-> h, user |-> u, rec |-> "none", twin |-> "none"] :
-            d \in 1..MaxDepth, o \in [1..4 -> Kinds], ord \in Orders, lc \in {"near", "far"}, h \in {"none", "before", "after"}, u \in {"none", "ref_first"}} :
-     x.user = "ref_first" => (x.homonym # "none" /\ x.own[1] = "seqattrs" /\ x.own[2] \in {"seq", "attrs"})}
-  \cup {x \in {[depth |-> d, own |-> o, order |-> ord, loc |-> "near", homonym |-> "none", user |-> "none", rec |-> "tree", twin |-> "none"] :
+  {x \in {[depth |-> d, own |-> o, order |-> ord, loc |-> lc, homonym |-> h, user |-> u, rec |-> "none", twin |-> "none", same |-> sm] :
+            d \in 1..MaxDepth, o \in [1..4 -> Kinds], ord \in Orders, lc \in {"near", "far"}, h \in {"none", "before", "after"}, u \in {"none", "ref_first"}, sm \in BOOLEAN} :
+     /\ x.user = "ref_first" => (x.homonym # "none" /\ x.own[1] = "seqattrs" /\ x.own[2] \in {"seq", "attrs"})
+     /\ x.same => (x.loc = "far" /\ x.homonym = "none" /\ x.user = "none" /\ x.own[1] \in {"seq", "seqattrs"} /\ x.own[2] \in {"seq", "seqattrs"})}
+  \cup {x \in {[depth |-> d, own |-> o, order |-> ord, loc |-> "near", homonym |-> "none", user |-> "none", rec |-> "tree", twin |-> "none", same |-> FALSE] :
             d \in 1..MaxDepth, o \in [1..4 -> Kinds], ord \in Orders} : x.own[1] \in {"seq", "seqattrs"}}
-  \cup {x \in {[depth |-> d, own |-> o, order |-> ord, loc |-> "far", homonym |-> "none", user |-> "none", rec |-> "none", twin |-> tw] :
+  \cup {x \in {[depth |-> d, own |-> o, order |-> ord, loc |-> "far", homonym |-> "none", user |-> "none", rec |-> "none", twin |-> tw, same |-> FALSE] :
             d \in 1..MaxDepth, o \in [1..4 -> Kinds], ord \in Orders, tw \in {"prefixed", "default"}} :
             x.own[1] \in {"seq", "seqattrs"} /\ x.own[2] \in {"seq", "empty"}}
 \* only the first depth+1 entries of `own` matter: normalise the rest
@@ -66,11 +67,16 @@ Cases == {Norm(x) : x \in Space}
 
 \* level i (1-based index into the tables; level 1 = root base)
 ChildRef == [k |-> "ref", ref |-> [p |-> "t", n |-> "AlphaChild"], min |-> 0, max |-> "unb"]
+\* same = TRUE (root base in the other namespace): the first derived type declares an element with the LOCAL NAME of an
+\* inherited one - its own, in its own namespace; both are members (seed C08-f)
+OwnContent(x, i) == IF i = 2 /\ x.same /\ x.own[2] \in {"seq", "seqattrs"}
+                    THEN << SeqP(1, "1", << El(Item[1], B("string"), 1, "1"), El(Count[2], B("int"), 0, "unb") >>) >>
+                    ELSE ContentOf(x.own[i], i)
 TypeItem(x, i) ==
   [k |-> "complex", n |-> TypeName[i],
    base |-> IF i = 1 THEN None ELSE T(IF i = 2 /\ x.loc = "far" THEN "o" ELSE "t", TypeName[i - 1]),
    content |-> IF i = 1 /\ x.rec = "tree" THEN << SeqP(1, "1", << El(Item[1], B("string"), 1, "1"), ChildRef, El(Count[1], B("int"), 0, "unb") >>) >>
-               ELSE ContentOf(x.own[i], i),
+               ELSE OwnContent(x, i),
    attrs |-> AttrOf(x.own[i], i)]
 ChildElem == [k |-> "element", n |-> "AlphaChild",
               inline |-> [base |-> T("t", "AlphaType"), content |-> << SeqP(1, "1", << El("childPos", B("int"), 1, "1") >>) >>,
